@@ -57,8 +57,17 @@ Section Read.
   (* the tokens read, in order *)
   Definition read_tokens (toks : list ltoken) (n : nat) : list ltoken := firstn n toks.
 
-  Definition last_read (toks : list ltoken) (n : nat) : option ltoken :=
-    match n with O => None | S k => nth_error toks k end.
+  (* the last token the parser read: the last of the tokens read *)
+  Fixpoint last_opt {A} (l : list A) : option A :=
+    match l with [] => None | [x] => Some x | _ :: r => last_opt r end.
+  Definition last_read (toks : list ltoken) (n : nat) : option ltoken := last_opt (firstn n toks).
+
+  (* the file events of a read that returns: those attached to the tokens read, then the unwinding of the
+     include stack as it stands after the last token read (on success that stack is empty: the last token
+     read is the end of input of the outermost buffer) *)
+  Definition file_events (toks : list ltoken) (n : nat) : list levent :=
+    flat_map lt_events (firstn n toks) ++
+    match last_read toks n with Some t => map LvClose (lt_open t) | None => [] end.
 
   (* error-field updates made by the scanner for the tokens read (include failures) *)
   Definition apply_scan_errs (e : errstate) (toks : list ltoken) : errstate :=
@@ -104,13 +113,12 @@ Section Read.
     match res with
     | POk s =>
         mkRd (set_files (set_root c1 (p_root s)) files) RdOk
-             (ev_clear ++ flat_map levent_to_event evs) (stdout_bytes evs)
+             (ev_clear ++ flat_map levent_to_event (file_events toks (p_read fin))) (stdout_bytes evs)
     | PErr e s =>
         let err2 := yyerror err1 (p_line s) (perr_text e) in
         let err3 := mkErr 2 (e_text err2) (p_file s) (e_line err2) in
-        let unwind := match lastt with Some t => map LvClose (lt_open t) | None => [] end in
         mkRd (set_err (set_files (set_root c1 (p_root s)) files) err3) RdFail
-             (ev_clear ++ flat_map levent_to_event (evs ++ unwind)) (stdout_bytes evs)
+             (ev_clear ++ flat_map levent_to_event (file_events toks (p_read fin))) (stdout_bytes evs)
     | PFatal s =>
         mkRd (set_root c1 (p_root s))
              (match stop with StopFatal code => RdExit code | _ => RdStuck end)
